@@ -106,7 +106,7 @@ def queries(tier):
             gcells.append((tk, op, 0, 1))
     for (k, l), op, pos, kl in gcells:
         qs.append(dict(name='get_%d%d_op%d_p%d_k%d' % (k, l, op, pos, kl), unit='cls', harness='h_get.c', defs={'K0': k, 'L0': l, 'OP': op, 'POS': pos, 'KLEN': kl},
-                       unwind=8, unwindset='strlen.0:34,verif_memcpy_loop.0:34,verif_memmove_loop.0:34,verif_memmove_loop.1:34', timeout=900, mem_gb=7 if (l >= 5 or op in (4, 14, 15)) else 3.5, flags=FAST, tv_runs=100,
+                       unwind=8, unwindset='strlen.0:34,verif_memcpy_loop.0:34,verif_memmove_loop.0:34,verif_memmove_loop.1:34', timeout=900, mem_gb=7 if (l >= 5 or op in (4, 12, 14, 15)) else 3.5, flags=FAST, tv_runs=100,
                        desc='getter op %d on one token (kind %d, length %d), pos %d / symbolic key of %d bytes, then assert_none_unused' % (op, k, l, pos, kl),
                        bounds='one token of kind/length (%d,%d)' % (k, l)))
     for l in (0, 1, 2):
